@@ -318,7 +318,7 @@ def run_python_plain(cfg, ops, chdir, per_step=None, end="close", sibling=None):
 def script_lines(cfg, ops, chdir):
     lines = ["init %s %s %d %s %d %d %d %d %d %s %d %d %d %d %d %d" % (
         chdir, cfg["kind"], cfg["size"], cfg["order"], cfg["S"], cfg["F"], cfg["start"], cfg["n"], cfg["d"],
-        cfg.get("uuid", "verif"), cfg["comp"], cfg["checksum"], cfg["cplx"], cfg["nsub"], cfg["cont"], cfg["salt"])]
+        cfg.get("uuid", "verif") or "@EMPTY@", cfg["comp"], cfg["checksum"], cfg["cplx"], cfg["nsub"], cfg["cont"], cfg["salt"])]
     for op in ops:
         if "cid" in op:
             lines.append("cid %d" % op["cid"])
